@@ -64,6 +64,14 @@ func c07HostSmall(start int64, opts FinalizeOptions) {
 	vp.Assert(vphost.WriteFile(ws+"/a.txt", a[:asize], 0o644) == nil, "workspace file a.txt")
 	vp.Assert(vphost.Chmod(ws+"/a.txt", amode) == nil, "chmod a.txt")
 	vp.Assert(vphost.Chtimes(ws+"/a.txt", mtime) == nil, "chtimes a.txt")
+	uid, gid := vp.U32("auid"), vp.U32("agid")
+	// disjoint ranges (and different from the 0 of the other entries) keep the id table's map lookups decidable
+	// without forking; os.Lchown takes ints, so below 2^31
+	vp.Assume(uid >= 1000)
+	vp.Assume(uid < 1<<31)
+	vp.Assume(gid >= 1)
+	vp.Assume(gid < 1000)
+	vp.Assert(vphost.Lchown(ws+"/a.txt", uid, gid) == nil, "chown a.txt")
 	vp.Assert(vphost.MkdirAll(ws+"/d", 0o755) == nil, "workspace dir d")
 	vp.Assert(vphost.WriteFile(ws+"/d/b", b[:bsize], 0o600) == nil, "workspace file d/b")
 	vp.Assert(vphost.Symlink("a.txt", ws+"/l") == nil, "workspace symlink l")
@@ -106,6 +114,12 @@ func c07HostSmall(start int64, opts FinalizeOptions) {
 			vp.Assert(fi.Size() == int64(asize), "size of a.txt")
 			vp.Assert(fi.Mode().Perm() == amode, "permission bits of a.txt")
 			vp.Assert(fi.ModTime().Unix() == mtime, "mtime of a.txt")
+			if st, ok := fi.Sys().(*StatT); ok {
+				vp.Assert(st.UID == uid, "owner of a.txt")
+				vp.Assert(st.GID == gid, "group of a.txt")
+			} else {
+				vp.Assert(false, "Sys() of a listed entry is *StatT")
+			}
 		}
 	}
 	got, err := c07HostRead(rd, "a.txt", capA)
@@ -123,6 +137,13 @@ func c07HostSmall(start int64, opts FinalizeOptions) {
 	sub, err := rd.ReadDir("d")
 	vp.Assert(err == nil, "listing of d")
 	vp.Assert(len(sub) == 1, "d has exactly b")
+	if len(ents) == 3 {
+		if fi, err := ents[2].Info(); err == nil {
+			if st, ok := fi.Sys().(*StatT); ok {
+				vp.Assert(st.LinkTarget == "a.txt", "symlink target of l")
+			}
+		}
+	}
 	// OpenFile follows the symbolic link l -> a.txt
 	got, err = c07HostRead(rd, "l", capA)
 	vp.Assert(err == nil, "l readable through the link")
